@@ -51,7 +51,53 @@ def deep(o, depth=0, seen=None):
         if slots:
             return ("slots", name, [(s, deep(getattr(o, s, None), depth + 1, seen)) for s in slots])
         return ("repr", name, repr(o))
-    return ("obj", name, [(k, deep(v, depth + 1, seen)) for k, v in sorted(d.items()) if not k.startswith("_vp_")])
+    fields = [(k, deep(v, depth + 1, seen)) for k, v in sorted(d.items()) if not k.startswith("_vp_")]
+    if depth == 0:
+        fields.append(("<arrays sharing memory>", ("list", [("list", g) for g in shared_memory_groups(o)])))
+    return ("obj", name, fields)
+
+
+def _first_party(o) -> bool:
+    mod = type(o).__module__ or ""
+    return mod.startswith(("black_it", "vp", "props", "__main__"))
+
+
+def shared_memory_groups(o) -> list[list[str]]:
+    """which numeric arrays held (directly, or in plain containers) by the first-party objects reachable from `o` share memory with each other —
+    the same object under two names, or a view.  Part of an object's state: writing through one name changes the other."""
+    found, seen = [], set()
+
+    def walk(x, path, depth):
+        if depth > 8 or id(x) in seen and not isinstance(x, np.ndarray):
+            return
+        if isinstance(x, np.ndarray):
+            if x.dtype != object and x.size > 0:
+                found.append((path, x))
+            return
+        seen.add(id(x))
+        if isinstance(x, dict):
+            for k, v in x.items():
+                walk(v, f"{path}.{k}", depth + 1)
+        elif isinstance(x, (list, tuple)):
+            for i, v in enumerate(x):
+                walk(v, f"{path}[{i}]", depth + 1)
+        elif _first_party(x) and hasattr(x, "__dict__"):
+            for k, v in sorted(vars(x).items()):
+                if not k.startswith("_vp_"):
+                    walk(v, f"{path}.{k}", depth + 1)
+
+    walk(o, "", 0)
+    groups, used = [], set()
+    for i, (pi, ai) in enumerate(found):
+        if i in used:
+            continue
+        g = [pi]
+        for j in range(i + 1, len(found)):
+            if j not in used and np.shares_memory(ai, found[j][1]):
+                g.append(found[j][0]); used.add(j)
+        if len(g) > 1:
+            groups.append(sorted(g))
+    return sorted(groups)
 
 
 def diff(a, b, path="") -> list[str]:
